@@ -1,7 +1,9 @@
 """C33 — worker crashes never hang Pynguin and restarts are bounded.
 
-Decides the structural clauses: the master keeps no writer of the result pipe (so a dead worker
-yields EOF instead of a blocking recv); every restart passes the search-time adjustment and the
+Decides the structural clauses: recv() on the result pipe is reached only after poll() reported data,
+in a poll(timeout) loop that ends when the worker is no longer alive (EOF can be withheld by a process
+the worker forked; while get_result relies on EOF instead, the master must keep no writer of the pipe);
+every restart passes the search-time adjustment and the
 `<= 0` abort; the adjustment strictly reduces a positive budget for any positive elapsed time
 (evaluated over a boundary partition of (budget, elapsed)); get_result recurses only after a
 successful restart and converts any receive failure into the restart path; the master never
